@@ -146,6 +146,12 @@ func vpIteU32(c bool, a, b uint32) uint32 {
 	}
 	return b
 }
+func vpIteU8(c bool, a, b uint8) uint8 {
+	if c {
+		return a
+	}
+	return b
+}
 func vpIteI64(c bool, a, b int64) int64 {
 	if c {
 		return a
